@@ -78,7 +78,8 @@ Inductive op :=
 | ORelease (src : nat)
 | OWeakRef (src wdst : nat)
 | OWeakAdd (w dst : nat)
-| OCall (src : nat) (recv : bool)        (* SendCall / RecvCall *)
+| OCall (src : nat) (recv abn : bool)    (* SendCall / RecvCall; abn: the hook's Send/Recv ends
+                                            abnormally (panic / Goexit, recovered by the caller) *)
 | OFulfill (p src : nat)                 (* src slot empty = Fulfill(nil) *)
 | OIsValid (src : nat)
 | OIsSame (a b : nat)
@@ -86,7 +87,7 @@ Inductive op :=
 
 (* what a Client method does once it holds c.mu (and, at the end of the walk, c.h.mu) *)
 Inductive kont :=
-| KAddRef (dst : nat) | KRelease | KCall (recv : bool) | KValid | KWeakRef (wdst : nat)
+| KAddRef (dst : nat) | KRelease | KCall (recv abn : bool) | KValid | KWeakRef (wdst : nat)
 | KSame1 (c2 : option nat) | KSame2 (h1 : option nat) | KState.
 
 Inductive pc :=
@@ -94,7 +95,7 @@ Inductive pc :=
 | CLock (k : kont) (c : nat)                 (* about to Lock c.mu *)
 | CWalk (k : kont) (c cur : nat)             (* holds c.mu, about to Lock cur.mu *)
 | WWalk (dst w cur : nat)                    (* WeakClient.AddRef, about to Lock cur.mu *)
-| InCall (h : nat)                           (* inside ClientHook.Send/Recv *)
+| InCall (h : nat) (abn : bool)              (* inside ClientHook.Send/Recv; abn: it will end by panic *)
 | CallFin (h : nat) (r : res)                (* finish(): about to Lock h.mu; r = the op's result *)
 | WaitDone (h : nat)                         (* <-h.done; h.Shutdown() *)
 | FLock (p : nat) (c : nat)                  (* Fulfill: about to Lock c.mu *)
@@ -219,10 +220,10 @@ Definition begin_op (t : nat) (o : op) (g : config) : config :=
           | _ => finish t RNil g
           end
       end
-  | OCall src recv =>
+  | OCall src recv abn =>
       match lookup src (cslots g) with
       | None => finish t RErr g
-      | Some c => set_pc t (CLock (KCall recv) c) g
+      | Some c => set_pc t (CLock (KCall recv abn) c) g
       end
   | OFulfill p src =>
       match lookup p (pslots g) with
@@ -266,7 +267,7 @@ Definition clock_step (t : nat) (k : kont) (c : nat) (cl : client) (g : config) 
                let g1 := if borrowed g c then set_misuse true g else g in
                set_pc t (CWalk k c h) (uc c (fun x => cl_released true (cl_mu (Some t) x)) g1)
            end
-  | KCall _ =>
+  | KCall _ _ =>
       match c_h cl with None => finish t RErr g | Some h => walk h end
   | KValid =>
       match c_h cl with None => finish t (RBool false) g | Some h => walk h end
@@ -295,7 +296,7 @@ Definition cwalk_nil (t : nat) (k : kont) (c : nat) (g : config) : config :=
   match k with
   | KAddRef _ => finish t RNil g
   | KRelease => finish t ROk g
-  | KCall _ => finish t RErr g
+  | KCall _ _ => finish t RErr g
   | KValid => finish t (RBool false) g
   | KWeakRef _ => finish t RNil g
   | KSame1 c2 => same_second t None c2 g
@@ -321,8 +322,8 @@ Definition cwalk_end (t : nat) (k : kont) (c cur : nat) (hk : hook) (g : config)
         | Some hk' => set_pc t (WaitDone cur) (unlock_c (uh cur (fun _ => hk') g))
         end
       else set_pc t (WaitDone cur) (unlock_c (uh cur (hk_refs r) g))
-  | KCall recv =>
-      set_pc t (InCall cur)
+  | KCall recv abn =>
+      set_pc t (InCall cur abn)
         (emit (if recv then EvRecv cur else EvSend cur)
         (unlock_c (uh cur (hk_calls (h_calls hk + 1)) g)))
   | KValid => finish t (RBool true) (unlock_c g)
@@ -446,7 +447,9 @@ Definition step (fixed : bool) (g : config) (t : nat) : option config :=
                       (uh cur (hk_refs (h_refs hk + 1)) g))))
             end
         end
-    | InCall h => Some (set_pc t (CallFin h RSent) g)
+    (* the call-out ends: by return, or by a panic / Goexit unwinding through SendCall/RecvCall;
+       in both cases the deferred finish() runs next *)
+    | InCall h abn => Some (set_pc t (CallFin h (if abn then RPanic else RSent)) g)
     | CallFin h rr =>
         match get_hook g h with
         | None => None
@@ -516,6 +519,44 @@ Definition step (fixed : bool) (g : config) (t : nat) : option config :=
     end
   end.
 
+(* ---------------------------------------------------------------- a third variant (seeded mutation) *)
+(* "Early unlock": Fulfill locks the first hook of the target chain while still holding cp.h.mu,
+   then releases cp.h.mu at once and walks on with resolveHook (which unlocks each hook before
+   it locks the next).  Same as [step true] except in Fulfill's transfer walk: the step that
+   acquires a hook also releases cp.h.mu if this thread still holds it, and the end of the walk
+   does not touch cp.h.mu.  Refuted in Cap/CapRefuted.v (the target of a chain of two promises
+   is shut down while referenced). *)
+Definition unlock_if_mine (p t : nat) (g : config) : config :=
+  match get_hook g p with
+  | Some hk => if oeqb (h_mu hk) (Some t) then uh p (hk_mu None) g else g
+  | None => g
+  end.
+
+Definition step_early (g : config) (t : nat) : option config :=
+  match nth_error (threads g) t with
+  | Some th =>
+      match t_pc th with
+      | FWalk p _ _ _ =>
+          match step false g t with          (* enabled iff the hook to be locked is free *)
+          | None => None
+          | Some _ => step false (unlock_if_mine p t g) t
+          end
+      | _ => step true g t
+      end
+  | None => None
+  end.
+
+(* runs and reachability for an arbitrary step function *)
+Fixpoint run_with (stp : config -> nat -> option config) (g : config) (sched : list nat) : option config :=
+  match sched with
+  | [] => Some g
+  | t :: r => match stp g t with None => None | Some g' => run_with stp g' r end
+  end.
+
+Inductive reachable_with (stp : config -> nat -> option config) (g0 : config) : config -> Prop :=
+| reachw_refl : reachable_with stp g0 g0
+| reachw_step : forall g t g', reachable_with stp g0 g -> stp g t = Some g' -> reachable_with stp g0 g'.
+
 (* ---------------------------------------------------------------- runs *)
 Definition init (progs : list (list op)) : config :=
   mkConfig [] [] [] [] [] [] (map (fun p => mkThread p Idle []) progs) [] false.
@@ -543,7 +584,7 @@ Definition unfinished (th : thread) : bool :=
   match t_pc th, t_prog th with Idle, [] => false | _, _ => true end.
 
 Definition in_callout (th : thread) : bool :=
-  match t_pc th with InCall _ => true | _ => false end.
+  match t_pc th with InCall _ _ => true | _ => false end.
 
 (* sequential execution: one thread, each op run to completion (fuel = bound on the number
    of sections; running out of fuel or getting stuck is reported as None) *)
